@@ -12,7 +12,8 @@ Correspondence for C19.
   gradient components).
 * `mag`: epoch selection and time interpolation of `MagneticModel::FieldGeocentric` from the implementation's own
   per-epoch harmonic gradients.
-* `ngu`: closed forms of the normal potential and of `FlatteningToJ2` (oblate) — condition-aware tolerance.
+* `ngu`: closed forms of the normal potential (oblate, prolate, sphere) and of `FlatteningToJ2` (oblate) — condition-aware tolerance.
+* `ngj`: the flattening returned by `J2ToFlattening` is a zero of the model's Newton residual `j2Residual` (oblate branch).
 -/
 namespace GeoVerif.Corr.C19
 open GeoVerif GeoVerif.Proto GeoVerif.Harmonic
@@ -167,18 +168,54 @@ def handleMag (args res : List String) : Verdict :=
 def handleNgu (args res : List String) : Verdict :=
   match args.mapM pfl, res.mapM pfl with
   | some [GM, om, a, f, u, _beta, b, E, sb, cb], some [U, j2] =>
-    let mU := normalU GM om a b E u sb cb
-    -- conditioning of q(u) = ½[(1 + 3u²/E²)·atan(E/u) − 3u/E]: the two terms are ≈ 3u/E each
-    let relq (w : Float) : Float := 16 * eps53 * (3 * w / E) / fabs (qfun E w)
-    let rot := om * om * a * a / 2 * fabs (qfun E u / qfun E b) * fabs (sb * sb - 1 / 3)
-    let tolU := 16 * eps53 * (fabs GM / u + om * om * (u * u + E * E)) + rot * (relq u + relq b)
-    let mJ := flatteningToJ2 a GM om f
-    let z := Float.sqrt (f * (2 - f)) / (1 - f)
-    let K := 2 * (a * om) * (a * om) * a / (15 * GM)
-    let corrJ := fabs (K * (1 - f) * (1 - f) * (1 - f) / Qz z)
-    let tolJ := 16 * eps53 * (f * (2 - f)) + corrJ * (16 * eps53 * (3 / z) / fabs (Qz z * z * z * z))
-    if fabs (mU - U) ≤ tolU && fabs (mJ - j2) ≤ tolJ then .ok
-    else .bad s!"NormalGravity: U impl={shw U} closed-form model={shw mU} (tolerance {tolU}); FlatteningToJ2 impl={shw j2} model={shw mJ} (tolerance {tolJ})"
+    if f > 0 then
+      let mU := normalU GM om a b E u sb cb
+      -- conditioning of q(u) = ½[(1 + 3u²/E²)·atan(E/u) − 3u/E]: the two terms are ≈ 3u/E each
+      let relq (w : Float) : Float := 16 * eps53 * (3 * w / E) / fabs (qfun E w)
+      let rot := om * om * a * a / 2 * fabs (qfun E u / qfun E b) * fabs (sb * sb - 1 / 3)
+      let tolU := 16 * eps53 * (fabs GM / u + om * om * (u * u + E * E)) + rot * (relq u + relq b)
+      let mJ := flatteningToJ2 a GM om f
+      let z := Float.sqrt (f * (2 - f)) / (1 - f)
+      let K := 2 * (a * om) * (a * om) * a / (15 * GM)
+      let corrJ := fabs (K * (1 - f) * (1 - f) * (1 - f) / Qz z)
+      let tolJ := 16 * eps53 * (f * (2 - f)) + corrJ * (16 * eps53 * (3 / z) / fabs (Qz z * z * z * z))
+      if fabs (mU - U) ≤ tolU && fabs (mJ - j2) ≤ tolJ then .ok
+      else .bad s!"NormalGravity: U impl={shw U} closed-form model={shw mU} (tolerance {tolU}); FlatteningToJ2 impl={shw j2} model={shw mJ} (tolerance {tolJ})"
+    else if f < 0 then
+      let mU := normalUProlate GM om a b E u sb cb
+      -- conditioning of q(w) = Q(−w²)·w³ = −½[(1 − 3/w²)·atanh w + 3/w], w = E/u: the two terms are ≈ 3/w each
+      let relq (w : Float) : Float := 16 * eps53 * (3 / w) / fabs (QzAlt w * w * w * w)
+      let bu := b / u
+      let rot := om * om * a * a / 2 * fabs (QzAlt (E / u) / QzAlt (E / b) * bu * bu * bu) * fabs (sb * sb - 1 / 3)
+      let tolU := 16 * eps53 * (fabs GM / u * (1 + E / (u - E)) + om * om * (u * u + E * E)) + rot * (relq (E / u) + relq (E / b))
+      if fabs (mU - U) ≤ tolU then .ok
+      else .bad s!"NormalGravity (prolate): U impl={shw U} closed-form model={shw mU} (tolerance {tolU})"
+    else
+      let mU := normalUSphere GM om a u sb cb
+      let tolU := 16 * eps53 * (fabs GM / u + om * om * (u * u + a * a * (a / u) * (a / u) * (a / u)))
+      if fabs (mU - U) ≤ tolU then .ok
+      else .bad s!"NormalGravity (sphere): U impl={shw U} closed-form model={shw mU} (tolerance {tolU})"
+  | _, _ => if res == ["!E"] then .skip "rejected" else .bad "parse"
+
+/-! ### ngj: the value returned by `J2ToFlattening` is a zero of the residual of its Newton iteration (oblate branch) -/
+
+def handleNgj (args res : List String) : Verdict :=
+  match args.mapM pfl, res.mapM pfl with
+  | some [a, GM, om, J2], some [f, _j2] =>
+    if f.isNaN then .skip "no solution (NaN)"
+    else if !(f > 1e-5 && f < 1) then .skip "not on the oblate branch of the model"
+    else
+      let e2 := f * (2 - f)
+      let h := j2Residual a GM om J2 e2
+      -- the closed form of Q(e′) cancels for small e′ (the implementation uses a series there): condition-aware tolerance as for FlatteningToJ2
+      let z := Float.sqrt (e2 / (1 - e2))
+      let K := 2 * (a * om) * (a * om) * a / (15 * GM)
+      let corr := fabs (K * (1 - f) * (1 - f) * (1 - f) / Qz z)
+      let tol := 64 * eps53 * (e2 + 3 * fabs J2) + corr * (64 * eps53 * (1 + (3 / z) / fabs (Qz z * z * z * z)))
+      -- |f − j2Flattening(e²)|: the returned flattening is the one of e²
+      let fb := j2Flattening e2
+      if fabs h ≤ tol && fabs (fb - f) ≤ 8 * eps53 * f then .ok
+      else .bad s!"NormalGravity::J2ToFlattening: returned f={shw f} (e2={shw e2}) has residual h(e2)={shw h} in the model of the Newton iteration (tolerance {tol}); e2/(1+sqrt(1-e2))={shw fb}"
   | _, _ => if res == ["!E"] then .skip "rejected" else .bad "parse"
 
 def handle (op : String) (args res : List String) : Option Verdict :=
@@ -204,7 +241,8 @@ def handle (op : String) (args res : List String) : Option Verdict :=
   | "shm" => some (handleShm args res)
   | "mag" => some (handleMag args res)
   | "ngu" => some (handleNgu args res)
-  | "sh" | "grav" | "ng" | "ngj" | "cofbad" | "magx" => some (.skip "judged by the harness oracles on the implementation")
+  | "ngj" => some (handleNgj args res)
+  | "sh" | "grav" | "ng" | "cofbad" | "magx" => some (.skip "judged by the harness oracles on the implementation")
   | _ => none
 
 end GeoVerif.Corr.C19
